@@ -4,6 +4,77 @@ import FitProps.CrcLemmas
 records, the LRU/definition-table simulation invariant, timestamp reconstruction. Core Lean only. -/
 namespace Fit.Wire
 
+/-! ### the framing skeleton of the decoder
+
+`decodeRecordF` / `decodeRecordsF` are `decodeRecord` / `decodeRecords` of FitModel/Wire.lean WITHOUT the field
+descriptions: developer field bytes are taken whatever the descriptions say (`takeDevsF`), the description table of the
+state is left alone. They exist for the proofs only (nothing executes them): the round trip and the bridges to the other
+decoder models are proved on the skeleton, and `decodeRecords_of_F` / `decodeRecord_toF` below transfer the results to
+the real `decodeRecords`: the two agree exactly where no developer field refers to a field description with an invalid
+base type, and there the real one ends with `invalidBaseType`. -/
+
+def takeDevsF : List DevDef → Bytes → Except Err (List (DevDef × Bytes) × Bytes)
+  | [], bs => .ok ([], bs)
+  | fd :: fds, bs =>
+    if bs.length < fd.size then .error .eof else
+      match takeDevsF fds (bs.drop fd.size) with
+      | .ok (fs, rest) => .ok ((fd, bs.take fd.size) :: fs, rest)
+      | .error e => .error e
+
+def decodeRecordF (tsKnown : Nat → Bool) (s : DecState) : Bytes → Except Err (Item × DecState × Bytes)
+  | [] => .error .eof
+  | h :: bs =>
+    if h &&& 0xC0 == 0x40 then
+      match bs with
+      | _res :: arch :: m0 :: m1 :: n :: bs1 =>
+        let mesgNum := if arch = 0 then m0 + 256 * m1 else m1 + 256 * m0
+        match parseFieldDefs n bs1 with
+        | .error e => .error e
+        | .ok (fds, bs2) =>
+          if fds.any (fun f => !validBaseType f.bt) then .error .invalidBaseType else
+          if h &&& 0x20 == 0x20 then
+            match bs2 with
+            | [] => .error .eof
+            | k :: bs3 =>
+              match parseDevDefs k bs3 with
+              | .error e => .error e
+              | .ok (dds, bs4) =>
+                let d : MesgDef := ⟨h, arch, mesgNum, fds, dds⟩
+                .ok (.def_ (h &&& 0xF) d, { s with defs := (h &&& 0xF, d) :: s.defs }, bs4)
+          else
+            let d : MesgDef := ⟨h, arch, mesgNum, fds, []⟩
+            .ok (.def_ (h &&& 0xF) d, { s with defs := (h &&& 0xF, d) :: s.defs }, bs2)
+      | _ => .error .eof
+    else
+      let compressed := h &&& 0x80 == 0x80
+      let local_ := (if compressed then (h &&& 0x60) >>> 5 else h) &&& 0xF
+      match s.lookup local_ with
+      | none => .error .defMissing
+      | some d =>
+        let (s1, ts) := if compressed then
+            let (s', t) := decompressHdr s h
+            (s', some t)
+          else (s, none)
+        match takeFields d.fields bs with
+        | .error e => .error e
+        | .ok (fs, bs1) =>
+          let s2 := trackTs (tsKnown d.mesgNum) d.arch s1 fs
+          match takeDevsF d.devs bs1 with
+          | .error e => .error e
+          | .ok (ds, bs2) =>
+            .ok (.data ⟨h, d.mesgNum, d.arch, ts, fs, ds⟩, s2, bs2)
+
+def decodeRecordsF (tsKnown : Nat → Bool) : Nat → DecState → Nat → Bytes → List Item × Except Err Bytes
+  | 0, _, remaining, bs => if remaining = 0 then ([], .ok bs) else ([], .error .eof)
+  | fuel+1, s, remaining, bs =>
+    if remaining = 0 then ([], .ok bs) else
+      match decodeRecordF tsKnown s bs with
+      | .error e => ([], .error e)
+      | .ok (it, s', rest) =>
+        let used := bs.length - rest.length
+        let (its, r) := decodeRecordsF tsKnown fuel s' (remaining - used) rest
+        (it :: its, r)
+
 /-! ### definitions: print then parse -/
 
 def fdefsOf (m : WMsg) : List FieldDef := m.fields.map fun f => ⟨f.num, f.data.length % 256, f.bt⟩
@@ -61,7 +132,7 @@ theorem any_invalid_false (m : WMsg) (h : MsgOK m) :
 
 theorem decodeRecord_def (tsKnown : Nat → Bool) (s : DecState) (arch i : Nat) (m : WMsg) (rest : Bytes)
     (ha : arch = 0 ∨ arch = 1) (hi : i < 16) (hm : MsgOK m) :
-    decodeRecord tsKnown s (defRecord arch i m ++ rest) =
+    decodeRecordF tsKnown s (defRecord arch i m ++ rest) =
       .ok (.def_ i (defOf arch i m), { s with defs := (i, defOf arch i m) :: s.defs }, rest) := by
   obtain ⟨b1, b2, b3, b4, b5, b6⟩ := hdr_bits i hi
   have hnum : (if arch = 0 then m.num % 256 + 256 * (m.num / 256 % 256)
@@ -78,21 +149,21 @@ theorem decodeRecord_def (tsKnown : Nat → Bool) (s : DecState) (arch i : Nat) 
       simp [ddefsOf]; exact List.isEmpty_iff.mp hd
     rcases ha with rfl | rfl
     · simp only [defRecord, defBytes, hd, if_true, List.cons_append, List.nil_append, List.append_assoc,
-        decodeRecord, b1, b3, b5, flatMap_fdefs, hnf]
+        decodeRecordF, b1, b3, b5, flatMap_fdefs, hnf]
       simp [parseFieldDefs_print, hany, defOf, hd, hdd]
       have := hm.num; omega
     · simp only [defRecord, defBytes, hd, if_true, List.cons_append, List.nil_append, List.append_assoc,
-        decodeRecord, b1, b3, b5, flatMap_fdefs, hnf]
+        decodeRecordF, b1, b3, b5, flatMap_fdefs, hnf]
       simp [parseFieldDefs_print, hany, defOf, hd, hdd]
       have := hm.num; omega
   · have hd' : m.devs.isEmpty = false := by simpa using hd
     rcases ha with rfl | rfl
     · simp only [defRecord, defBytes, hd', Bool.false_eq_true, ↓reduceIte, List.cons_append, List.nil_append, List.append_assoc,
-        decodeRecord, b2, b4, b6, flatMap_fdefs, flatMap_ddefs, hnf, hnd]
+        decodeRecordF, b2, b4, b6, flatMap_fdefs, flatMap_ddefs, hnf, hnd]
       simp [parseFieldDefs_print, parseDevDefs_print, hany, defOf, hd']
       have := hm.num; omega
     · simp only [defRecord, defBytes, hd', Bool.false_eq_true, ↓reduceIte, List.cons_append, List.nil_append, List.append_assoc,
-        decodeRecord, b2, b4, b6, flatMap_fdefs, flatMap_ddefs, hnf, hnd]
+        decodeRecordF, b2, b4, b6, flatMap_fdefs, flatMap_ddefs, hnf, hnd]
       simp [parseFieldDefs_print, parseDevDefs_print, hany, defOf, hd']
       have := hm.num; omega
 
@@ -114,15 +185,15 @@ theorem takeFields_print (fs : List WField) (h : ∀ f ∈ fs, f.data.length ≤
     rw [ih']
 
 theorem takeDevs_print (fs : List WDev) (h : ∀ f ∈ fs, f.data.length ≤ 255) (rest : Bytes) :
-    takeDevs (fs.map fun f => ⟨f.num, f.data.length % 256, f.idx⟩) (fs.flatMap (·.data) ++ rest) =
+    takeDevsF (fs.map fun f => ⟨f.num, f.data.length % 256, f.idx⟩) (fs.flatMap (·.data) ++ rest) =
       .ok (fs.map (fun f => (⟨f.num, f.data.length % 256, f.idx⟩, f.data)), rest) := by
   induction fs with
-  | nil => simp [takeDevs]
+  | nil => simp [takeDevsF]
   | cons f fs ih =>
     have hf : f.data.length % 256 = f.data.length := by
       have := h f (by simp); omega
     have ih' := ih (fun g hg => h g (by simp [hg]))
-    simp only [List.map_cons, takeDevs, List.flatMap_cons, List.append_assoc, hf]
+    simp only [List.map_cons, takeDevsF, List.flatMap_cons, List.append_assoc, hf]
     have h1 : ¬ (f.data ++ (fs.flatMap (·.data) ++ rest)).length < f.data.length := by simp
     simp only [h1, if_false, List.drop_left, List.take_left]
     rw [ih']
@@ -144,11 +215,11 @@ theorem compressed_hdr_bits : ∀ i, i < 4 → ∀ t, t < 32 →
 /-- a normal-header data record whose definition is live -/
 theorem decodeRecord_data (tsKnown : Nat → Bool) (s : DecState) (arch i : Nat) (m : WMsg) (rest : Bytes)
     (hi : i < 16) (hm : MsgOK m) (hl : s.lookup i = some (defOf arch i m)) :
-    decodeRecord tsKnown s (i :: (payload m ++ rest)) =
+    decodeRecordF tsKnown s (i :: (payload m ++ rest)) =
       .ok (.data ⟨i, m.num, arch, none, recFieldsOf m, recDevsOf m⟩,
            trackTs (tsKnown m.num) arch s (recFieldsOf m), rest) := by
   obtain ⟨b1, b2, b3⟩ := normal_hdr_bits i hi
-  simp only [decodeRecord, b1, b2, b3, Bool.false_eq_true, ↓reduceIte, hl, defOf, payload, List.append_assoc,
+  simp only [decodeRecordF, b1, b2, b3, Bool.false_eq_true, ↓reduceIte, hl, defOf, payload, List.append_assoc,
     fdefsOf, ddefsOf]
   rw [takeFields_print m.fields (fun f hf => (hm.fields f hf).1)]
   simp only []
@@ -158,12 +229,12 @@ theorem decodeRecord_data (tsKnown : Nat → Bool) (s : DecState) (arch i : Nat)
 /-- a compressed-timestamp data record whose definition is live -/
 theorem decodeRecord_cdata (tsKnown : Nat → Bool) (s : DecState) (arch i t : Nat) (m : WMsg) (rest : Bytes)
     (hi : i < 4) (ht : t < 32) (hm : MsgOK m) (hl : s.lookup i = some (defOf arch i m)) :
-    decodeRecord tsKnown s (((0x80 ||| t) ||| ((i <<< 5) % 256)) :: (payload m ++ rest)) =
+    decodeRecordF tsKnown s (((0x80 ||| t) ||| ((i <<< 5) % 256)) :: (payload m ++ rest)) =
       .ok (.data ⟨(0x80 ||| t) ||| ((i <<< 5) % 256), m.num, arch, some (decompressHdr s ((0x80 ||| t) ||| ((i <<< 5) % 256))).2,
              recFieldsOf m, recDevsOf m⟩,
            trackTs (tsKnown m.num) arch (decompressHdr s ((0x80 ||| t) ||| ((i <<< 5) % 256))).1 (recFieldsOf m), rest) := by
   obtain ⟨b1, b2, b3, _⟩ := compressed_hdr_bits i hi t ht
-  simp only [decodeRecord, b1, b2, b3, Bool.false_eq_true, ↓reduceIte, hl, defOf, payload, List.append_assoc,
+  simp only [decodeRecordF, b1, b2, b3, Bool.false_eq_true, ↓reduceIte, hl, defOf, payload, List.append_assoc,
     fdefsOf, ddefsOf]
   rw [takeFields_print m.fields (fun f hf => (hm.fields f hf).1)]
   simp only []
@@ -480,17 +551,17 @@ theorem encTsOf_split (arch : Nat) (m : WMsg) (h : encTsOf arch m ≠ u32Invalid
 
 theorem decodeRecords_cons (tsKnown : Nat → Bool) (fuel : Nat) (s s' : DecState) (it : Item) (rec tail : Bytes)
     (remaining : Nat) (hpos : 0 < rec.length)
-    (h : decodeRecord tsKnown s (rec ++ tail) = .ok (it, s', tail)) :
-    decodeRecords tsKnown (fuel + 1) s (rec.length + remaining) (rec ++ tail) =
-      (it :: (decodeRecords tsKnown fuel s' remaining tail).1, (decodeRecords tsKnown fuel s' remaining tail).2) := by
+    (h : decodeRecordF tsKnown s (rec ++ tail) = .ok (it, s', tail)) :
+    decodeRecordsF tsKnown (fuel + 1) s (rec.length + remaining) (rec ++ tail) =
+      (it :: (decodeRecordsF tsKnown fuel s' remaining tail).1, (decodeRecordsF tsKnown fuel s' remaining tail).2) := by
   have hne : ¬ (rec.length + remaining = 0) := by omega
   have hused : rec.length + remaining - ((rec ++ tail).length - tail.length) = remaining := by
     simp [List.length_append]
-  simp only [decodeRecords, hne, if_false, h, hused]
+  simp only [decodeRecordsF, hne, if_false, h, hused]
 
 theorem decodeRecords_done (tsKnown : Nat → Bool) (fuel : Nat) (s : DecState) (bs : Bytes) :
-    decodeRecords tsKnown fuel s 0 bs = ([], .ok bs) := by
-  cases fuel <;> simp [decodeRecords]
+    decodeRecordsF tsKnown fuel s 0 bs = ([], .ok bs) := by
+  cases fuel <;> simp [decodeRecordsF]
 
 /-- what decoding returns for message `m`: all fields verbatim, or — when the encoder moved the timestamp
 into the record header — the reconstructed timestamp equal to the original one and the other fields verbatim -/
@@ -516,7 +587,7 @@ theorem emit_step (tsKnown : Nat → Bool) (arch : Nat) (ha : arch = 0 ∨ arch 
     (m' : WMsg) (hm : MsgOK m') (inv : DefInv arch l d) (hdrOf : Nat → Nat) (tail : Bytes)
     (r : Nat → DecState → WRec) (post : Nat → DecState → DecState)
     (hdata : ∀ i s, i < l.cap → s.lookup i = some (defOf arch i m') →
-      decodeRecord tsKnown s (hdrOf i :: (payload m' ++ tail)) = .ok (.data (r i s), post i s, tail))
+      decodeRecordF tsKnown s (hdrOf i :: (payload m' ++ tail)) = .ok (.data (r i s), post i s, tail))
     (hpost : ∀ i s, (post i s).defs = s.defs) :
     let p := l.put (defBytes arch m')
     let out := (if p.2.2 then defRecord arch p.2.1 m' else []) ++ (hdrOf p.2.1 :: payload m')
@@ -524,9 +595,9 @@ theorem emit_step (tsKnown : Nat → Bool) (arch : Nat) (ha : arch = 0 ∨ arch 
       d1.timestamp = d.timestamp ∧ d1.lastOff = d.lastOff ∧
       DefInv arch p.1 (post p.2.1 d1) ∧ p.1.cap = l.cap ∧ p.2.1 < l.cap ∧
       ∃ k pre, (k = 1 ∨ k = 2) ∧ k ≤ out.length ∧ (pre.filterMap (fun | .data x => some x | _ => none)) = [r p.2.1 d1] ∧
-        ∀ fuel remaining, decodeRecords tsKnown (fuel + k) d (out.length + remaining) (out ++ tail) =
-          (pre ++ (decodeRecords tsKnown fuel (post p.2.1 d1) remaining tail).1,
-           (decodeRecords tsKnown fuel (post p.2.1 d1) remaining tail).2) := by
+        ∀ fuel remaining, decodeRecordsF tsKnown (fuel + k) d (out.length + remaining) (out ++ tail) =
+          (pre ++ (decodeRecordsF tsKnown fuel (post p.2.1 d1) remaining tail).1,
+           (decodeRecordsF tsKnown fuel (post p.2.1 d1) remaining tail).2) := by
   obtain ⟨hi16, hicap, hc, hnew, hold⟩ := put_step arch ha l d m' hm inv
   generalize l.put (defBytes arch m') = p at *
   obtain ⟨l', i, isNew⟩ := p
@@ -609,8 +680,8 @@ theorem encodeMsg_step (tsKnown : Nat → Bool) (o : Opts) (ha : o.arch = 0 ∨ 
       (o.compress = true → LastInv (encodeMsg o e m).1.tsLast d') ∧
       k ≤ (encodeMsg o e m).2.length ∧ dataOf pre = [rec] ∧
       ∀ fuel remaining,
-        decodeRecords tsKnown (fuel + k) d ((encodeMsg o e m).2.length + remaining) ((encodeMsg o e m).2 ++ tail) =
-          (pre ++ (decodeRecords tsKnown fuel d' remaining tail).1, (decodeRecords tsKnown fuel d' remaining tail).2) := by
+        decodeRecordsF tsKnown (fuel + k) d ((encodeMsg o e m).2.length + remaining) ((encodeMsg o e m).2 ++ tail) =
+          (pre ++ (decodeRecordsF tsKnown fuel d' remaining tail).1, (decodeRecordsF tsKnown fuel d' remaining tail).2) := by
   -- the uncompressed emission, shared by several cases
   have plain :
       ∃ d1, d1.timestamp = d.timestamp ∧ d1.lastOff = d.lastOff ∧
@@ -619,8 +690,8 @@ theorem encodeMsg_step (tsKnown : Nat → Bool) (o : Opts) (ha : o.arch = 0 ∨ 
         let d' := trackTs (tsKnown m.num) o.arch d1 (recFieldsOf m)
         DefInv o.arch p.1 d' ∧ p.1.cap = e.lru.cap ∧
         ∃ k pre, k ≤ out.length ∧ dataOf pre = [⟨p.2.1, m.num, o.arch, none, recFieldsOf m, recDevsOf m⟩] ∧
-          ∀ fuel remaining, decodeRecords tsKnown (fuel + k) d (out.length + remaining) (out ++ tail) =
-            (pre ++ (decodeRecords tsKnown fuel d' remaining tail).1, (decodeRecords tsKnown fuel d' remaining tail).2) := by
+          ∀ fuel remaining, decodeRecordsF tsKnown (fuel + k) d (out.length + remaining) (out ++ tail) =
+            (pre ++ (decodeRecordsF tsKnown fuel d' remaining tail).1, (decodeRecordsF tsKnown fuel d' remaining tail).2) := by
     obtain ⟨d1, _, h2, h3, h4, h5, h6, k, pre, _, hk, hpre, hdec⟩ :=
       emit_step tsKnown o.arch ha e.lru d m hm inv (fun i => i) tail
         (fun i _ => ⟨i, m.num, o.arch, none, recFieldsOf m, recDevsOf m⟩)
@@ -740,11 +811,11 @@ theorem encodeMsgs_cons (o : Opts) (e : EncState) (m : WMsg) (ms : List WMsg) :
     encodeMsgs o e (m :: ms) = (encodeMsg o e m).2 ++ encodeMsgs o (encodeMsg o e m).1 ms := by
   simp [encodeMsgs]
 
-theorem encodeMsgs_roundtrip (tsKnown : Nat → Bool) (o : Opts) (ha : o.arch = 0 ∨ o.arch = 1) (ms : List WMsg) :
+theorem encodeMsgs_roundtripF (tsKnown : Nat → Bool) (o : Opts) (ha : o.arch = 0 ∨ o.arch = 1) (ms : List WMsg) :
     ∀ (e : EncState) (d : DecState), (∀ m ∈ ms, MsgOK m) → DefInv o.arch e.lru d →
       (o.compress = true → e.lru.cap ≤ 4) → (o.compress = true → LastInv e.tsLast d) →
       ∀ (tail : Bytes) (fuel : Nat), (encodeMsgs o e ms).length ≤ fuel →
-      ∃ items, decodeRecords tsKnown fuel d (encodeMsgs o e ms).length (encodeMsgs o e ms ++ tail) = (items, .ok tail) ∧
+      ∃ items, decodeRecordsF tsKnown fuel d (encodeMsgs o e ms).length (encodeMsgs o e ms ++ tail) = (items, .ok tail) ∧
         AllMatch (RecMatches o.arch) ms (dataOf items) := by
   induction ms with
   | nil =>
@@ -873,6 +944,475 @@ theorem TsMono.cons_ts {arch lo : Nat} {m : WMsg} {ms : List WMsg} (pre post : L
   exact ⟨Or.inr ⟨pre, f, post, v, hm, h1, h2, hnum, htag, hbt, hv, hmin, hmax⟩, fun _ => by rw [hval]; exact hlo,
     by rw [hval]; simpa [hne] using hr⟩
 
+/-! ### from the skeleton to the decoder: field descriptions -/
+
+theorem takeDevs_split : ∀ (fds : List Wire.DevDef) (bs : List Nat) (fs : List (Wire.DevDef × List Nat)) (rest : List Nat),
+    Wire.takeDevsF fds bs = .ok (fs, rest) →
+    fs.map (·.1) = fds ∧ bs = fs.flatMap (·.2) ++ rest ∧ ∀ p ∈ fs, p.2.length = p.1.size := by
+  intro fds
+  induction fds with
+  | nil =>
+    intro bs fs rest h
+    simp only [Wire.takeDevsF, Except.ok.injEq, Prod.mk.injEq] at h
+    obtain ⟨rfl, rfl⟩ := h
+    exact ⟨rfl, rfl, fun p hp => by cases hp⟩
+  | cons fd fds ih =>
+    intro bs fs rest h
+    simp only [Wire.takeDevsF] at h
+    split at h
+    · cases h
+    · rename_i hlen
+      cases hp : Wire.takeDevsF fds (bs.drop fd.size) with
+      | error e => rw [hp] at h; cases h
+      | ok pr =>
+        obtain ⟨fs', rest'⟩ := pr
+        rw [hp] at h
+        simp only [Except.ok.injEq, Prod.mk.injEq] at h
+        obtain ⟨rfl, rfl⟩ := h
+        obtain ⟨h1, h2, h3⟩ := ih _ _ _ hp
+        refine ⟨by simp [h1], ?_, ?_⟩
+        · simp only [List.flatMap_cons, List.append_assoc, ← h2, List.take_append_drop]
+        · intro p hp'
+          rcases List.mem_cons.mp hp' with rfl | hp'
+          · simp; omega
+          · exact h3 p hp'
+
+/-- what a successful `Wire.decodeRecordF` means: a definition record … or a data record under a live definition -/
+theorem wire_record_cases (tsKnown : Nat → Bool) (ds : Wire.DecState) (bs : List Nat) (it : Wire.Item) (ds' : Wire.DecState)
+    (rest : List Nat) (h : Wire.decodeRecordF tsKnown ds bs = .ok (it, ds', rest)) :
+    (∃ hd res arch m0 m1 n bs1 fds bs2 dds,
+        bs = hd :: res :: arch :: m0 :: m1 :: n :: bs1 ∧ (hd &&& 0xC0 == 0x40) = true ∧
+        Wire.parseFieldDefs n bs1 = .ok (fds, bs2) ∧ (∀ f ∈ fds, Wire.validBaseType f.bt = true) ∧
+        (if (hd &&& 0x20 == 0x20) = true then ∃ k bs3, bs2 = k :: bs3 ∧ Wire.parseDevDefs k bs3 = .ok (dds, rest)
+          else dds = [] ∧ bs2 = rest) ∧
+        it = .def_ (hd &&& 0xF) ⟨hd, arch, if arch = 0 then m0 + 256 * m1 else m1 + 256 * m0, fds, dds⟩ ∧
+        ds' = { ds with defs := (hd &&& 0xF, ⟨hd, arch, if arch = 0 then m0 + 256 * m1 else m1 + 256 * m0, fds, dds⟩) :: ds.defs }) ∨
+    (∃ hd bs0 wd fs bs1 dvs,
+        bs = hd :: bs0 ∧ (hd &&& 0xC0 == 0x40) = false ∧
+        ds.lookup ((if (hd &&& 0x80 == 0x80) = true then (hd &&& 0x60) >>> 5 else hd) &&& 0xF) = some wd ∧
+        Wire.takeFields wd.fields bs0 = .ok (fs, bs1) ∧ Wire.takeDevsF wd.devs bs1 = .ok (dvs, rest) ∧
+        it = .data ⟨hd, wd.mesgNum, wd.arch, if (hd &&& 0x80 == 0x80) = true then some (Wire.decompressHdr ds hd).2 else none, fs, dvs⟩ ∧
+        ds' = Wire.trackTs (tsKnown wd.mesgNum) wd.arch
+          (if (hd &&& 0x80 == 0x80) = true then (Wire.decompressHdr ds hd).1 else ds) fs) := by
+  cases bs with
+  | nil => simp [Wire.decodeRecordF] at h
+  | cons hd bs0 =>
+    simp only [Wire.decodeRecordF] at h
+    by_cases hdef : (hd &&& 0xC0 == 0x40) = true
+    · left
+      simp only [hdef, ↓reduceIte] at h
+      match bs0, h with
+      | res :: arch :: m0 :: m1 :: n :: bs1, h =>
+        simp only at h
+        cases hp : Wire.parseFieldDefs n bs1 with
+        | error e => rw [hp] at h; cases h
+        | ok pr =>
+          obtain ⟨fds, bs2⟩ := pr
+          rw [hp] at h
+          simp only at h
+          by_cases hinv : (fds.any fun f => !Wire.validBaseType f.bt) = true
+          · simp [hinv] at h
+          · simp only [hinv, Bool.false_eq_true, ↓reduceIte] at h
+            have hval : ∀ f ∈ fds, Wire.validBaseType f.bt = true := by
+              intro f hf
+              cases hv : Wire.validBaseType f.bt
+              · exact absurd (List.any_eq_true.mpr ⟨f, hf, by simp [hv]⟩) hinv
+              · rfl
+            by_cases hdv : (hd &&& 0x20 == 0x20) = true
+            · simp only [hdv, ↓reduceIte] at h
+              match bs2, h with
+              | k :: bs3, h =>
+                simp only at h
+                cases hq : Wire.parseDevDefs k bs3 with
+                | error e => rw [hq] at h; cases h
+                | ok pr2 =>
+                  obtain ⟨dds, bs4⟩ := pr2
+                  rw [hq] at h
+                  simp only [Except.ok.injEq, Prod.mk.injEq] at h
+                  obtain ⟨rfl, rfl, rfl⟩ := h
+                  exact ⟨hd, res, arch, m0, m1, n, bs1, fds, k :: bs3, dds, rfl, hdef, hp, hval,
+                    by simp only [hdv, ↓reduceIte]; exact ⟨k, bs3, rfl, hq⟩, rfl, rfl⟩
+              | [], h => simp at h
+            · simp only [hdv, Bool.false_eq_true, ↓reduceIte, Except.ok.injEq, Prod.mk.injEq] at h
+              obtain ⟨rfl, rfl, rfl⟩ := h
+              exact ⟨hd, res, arch, m0, m1, n, bs1, fds, bs2, [], rfl, hdef, hp, hval,
+                by simp [hdv], rfl, rfl⟩
+      | [], h => simp at h
+      | [_], h => simp at h
+      | [_, _], h => simp at h
+      | [_, _, _], h => simp at h
+      | [_, _, _, _], h => simp at h
+    · right
+      have hdef' : (hd &&& 0xC0 == 0x40) = false := by simpa using hdef
+      simp only [hdef', Bool.false_eq_true, ↓reduceIte] at h
+      cases hl : ds.lookup ((if (hd &&& 0x80 == 0x80) = true then (hd &&& 0x60) >>> 5 else hd) &&& 0xF) with
+      | none => rw [hl] at h; cases h
+      | some wd =>
+        rw [hl] at h
+        simp only at h
+        by_cases hc : (hd &&& 0x80 == 0x80) = true
+        · simp only [hc, ↓reduceIte] at h hl ⊢
+          cases ht : Wire.takeFields wd.fields bs0 with
+          | error e => rw [ht] at h; cases h
+          | ok pr =>
+            obtain ⟨fs, bs1⟩ := pr
+            rw [ht] at h
+            simp only at h
+            cases htd : Wire.takeDevsF wd.devs bs1 with
+            | error e => rw [htd] at h; cases h
+            | ok pr2 =>
+              obtain ⟨dvs, bs2⟩ := pr2
+              rw [htd] at h
+              simp only [Except.ok.injEq, Prod.mk.injEq] at h
+              obtain ⟨rfl, rfl, rfl⟩ := h
+              exact ⟨hd, bs0, wd, fs, bs1, dvs, rfl, hdef', by simpa [hc] using hl, ht, htd, by simp [hc], by simp [hc]⟩
+        · have hc' : (hd &&& 0x80 == 0x80) = false := by simpa using hc
+          simp only [hc', Bool.false_eq_true, ↓reduceIte] at h hl ⊢
+          cases ht : Wire.takeFields wd.fields bs0 with
+          | error e => rw [ht] at h; cases h
+          | ok pr =>
+            obtain ⟨fs, bs1⟩ := pr
+            rw [ht] at h
+            simp only at h
+            cases htd : Wire.takeDevsF wd.devs bs1 with
+            | error e => rw [htd] at h; cases h
+            | ok pr2 =>
+              obtain ⟨dvs, bs2⟩ := pr2
+              rw [htd] at h
+              simp only [Except.ok.injEq, Prod.mk.injEq] at h
+              obtain ⟨rfl, rfl, rfl⟩ := h
+              exact ⟨hd, bs0, wd, fs, bs1, dvs, rfl, hdef', by simpa [hc'] using hl, ht, htd, by simp [hc'], by simp [hc']⟩
+
+
+theorem trackTs_descs (known : Bool) (arch : Nat) (fs : List (FieldDef × Bytes)) (st : DecState) :
+    (trackTs known arch st fs).descs = st.descs := by
+  induction fs generalizing st with
+  | nil => rfl
+  | cons x xs ih =>
+    simp only [trackTs, List.foldl_cons] at ih ⊢
+    rw [ih]
+    split
+    · split <;> rfl
+    · rfl
+
+/-- no developer field definition refers to a field description with an invalid base type: the decoder takes the bytes
+as the skeleton does -/
+theorem takeDevs_eq_F (descs : List Desc) : ∀ (fds : List DevDef) (bs : Bytes),
+    (∀ fd ∈ fds, descInvalid descs fd = false) → takeDevs descs fds bs = takeDevsF fds bs := by
+  intro fds
+  induction fds with
+  | nil => intro bs _; rfl
+  | cons fd fds ih =>
+    intro bs h
+    simp only [takeDevs, takeDevsF, h fd (by simp), Bool.false_eq_true, if_false]
+    rw [ih _ (fun x hx => h x (by simp [hx]))]
+    rfl
+
+/-- … and one that does ends the decoding with `invalidBaseType` or, when the bytes of an earlier developer field are
+missing, with `eof`; never successfully -/
+theorem takeDevs_ok (descs : List Desc) : ∀ (fds : List DevDef) (bs : Bytes) (r : List (DevDef × Bytes) × Bytes),
+    takeDevs descs fds bs = .ok r → ∀ fd ∈ fds, descInvalid descs fd = false := by
+  intro fds
+  induction fds with
+  | nil => intro _ _ _ fd hfd; cases hfd
+  | cons fd fds ih =>
+    intro bs r h x hx
+    simp only [takeDevs] at h
+    cases hi : descInvalid descs fd with
+    | true => simp [hi] at h
+    | false =>
+      simp only [hi, Bool.false_eq_true, if_false] at h
+      rcases List.mem_cons.mp hx with rfl | hx
+      · exact hi
+      · split at h
+        · cases h
+        · cases hp : takeDevs descs fds (bs.drop fd.size) with
+          | error e => rw [hp] at h; cases h
+          | ok pr => exact ih _ _ hp x hx
+
+/-- the field descriptions after an item, and whether its developer fields pass the base-type check under them -/
+def descsAfter (descs : List Desc) : Item → List Desc
+  | .data r => noteDesc descs r.num r.fields
+  | .def_ _ _ => descs
+
+def itemDescOK (descs : List Desc) : Item → Bool
+  | .data r => r.devs.all fun p => !descInvalid (noteDesc descs r.num r.fields) p.1
+  | .def_ _ _ => true
+
+theorem decodeRecordF_descs (tsKnown : Nat → Bool) (s : DecState) (bs : Bytes) (it : Item) (s' : DecState) (rest : Bytes)
+    (h : decodeRecordF tsKnown s bs = .ok (it, s', rest)) : s'.descs = s.descs := by
+  rcases wire_record_cases tsKnown s bs it s' rest h with
+    ⟨hd, res, arch, m0, m1, n, bs1, fds, bs2, dds, _, _, _, _, _, _, rfl⟩ | ⟨hd, bs0, wd, fs, bs1, dvs, _, _, _, _, _, _, rfl⟩
+  · rfl
+  · rw [trackTs_descs]; split <;> rfl
+
+/-- ONE RECORD, skeleton ⇒ decoder: where the skeleton parses a record whose developer fields refer to no field
+description with an invalid base type, the decoder returns the same item and rest, and the same state with the record's
+field description (if it is one) appended -/
+theorem decodeRecord_of_F (tsKnown : Nat → Bool) (s : DecState) (bs : Bytes) (it : Item) (s' : DecState) (rest : Bytes)
+    (h : decodeRecordF tsKnown s bs = .ok (it, s', rest)) (hok : itemDescOK s.descs it = true) :
+    decodeRecord tsKnown s bs = .ok (it, { s' with descs := descsAfter s.descs it }, rest) := by
+  rcases wire_record_cases tsKnown s bs it s' rest h with
+    ⟨hd, res, arch, m0, m1, n, bs1, fds, bs2, dds, rfl, hdef, hp, hval, hdv, rfl, rfl⟩ |
+    ⟨hd, bs0, wd, fs, bs1, dvs, rfl, hdef, hl, ht, htd, rfl, rfl⟩
+  · have hany : (fds.any fun f => !validBaseType f.bt) = false := by
+      rw [List.any_eq_false]; intro f hf; simp [hval f hf]
+    simp only [decodeRecord, hdef, if_true, hp, hany, Bool.false_eq_true, if_false]
+    by_cases h20 : (hd &&& 0x20 == 0x20) = true
+    · simp only [h20, if_true] at hdv ⊢
+      obtain ⟨k, bs3, rfl, hq⟩ := hdv
+      simp only [hq, descsAfter]
+    · have h20' : (hd &&& 0x20 == 0x20) = false := by simpa using h20
+      simp only [h20', Bool.false_eq_true, if_false] at hdv ⊢
+      obtain ⟨rfl, rfl⟩ := hdv
+      simp only [descsAfter]
+  · obtain ⟨g1, _, _⟩ := takeDevs_split _ _ _ _ htd
+    have hdescs : ∀ s1 : DecState, s1.descs = s.descs →
+        (trackTs (tsKnown wd.mesgNum) wd.arch s1 fs).descs = s.descs := by
+      intro s1 h1; rw [trackTs_descs, h1]
+    have hall : ∀ fd ∈ wd.devs, descInvalid (noteDesc s.descs wd.mesgNum fs) fd = false := by
+      intro fd hfd
+      rw [← g1] at hfd
+      obtain ⟨p, hp, rfl⟩ := List.mem_map.mp hfd
+      simp only [itemDescOK, List.all_eq_true, Bool.not_eq_true'] at hok
+      exact hok p hp
+    simp only [decodeRecord, hdef, Bool.false_eq_true, if_false, hl]
+    by_cases hc : (hd &&& 0x80 == 0x80) = true
+    · simp only [hc, if_true, ht] at hl ⊢
+      rw [hdescs _ (by simp [decompressHdr]), takeDevs_eq_F _ _ _ hall, htd]
+      simp only [descsAfter]
+    · have hc' : (hd &&& 0x80 == 0x80) = false := by simpa using hc
+      simp only [hc', Bool.false_eq_true, if_false, ht] at hl ⊢
+      rw [hdescs _ rfl, takeDevs_eq_F _ _ _ hall, htd]
+      simp only [descsAfter]
+
+def trackStep (known : Bool) (arch : Nat) (st : DecState) (x : FieldDef × Bytes) : DecState :=
+  if x.1.num == tsFieldNum then
+    match tsFromField known arch x.1 x.2 with
+    | some t => { st with timestamp := t, lastOff := t % 32 }
+    | none => st
+  else st
+
+theorem trackTs_foldl (known : Bool) (arch : Nat) (st : DecState) (fs : List (FieldDef × Bytes)) :
+    trackTs known arch st fs = fs.foldl (trackStep known arch) st := rfl
+
+theorem trackStep_setDescs (known : Bool) (arch : Nat) (ds : List Desc) (st : DecState) (x : FieldDef × Bytes) :
+    trackStep known arch { st with descs := ds } x = { trackStep known arch st x with descs := ds } := by
+  unfold trackStep
+  split
+  · split <;> rfl
+  · rfl
+
+theorem trackTs_setDescs (known : Bool) (arch : Nat) (ds : List Desc) (fs : List (FieldDef × Bytes)) (st : DecState) :
+    trackTs known arch { st with descs := ds } fs = { trackTs known arch st fs with descs := ds } := by
+  rw [trackTs_foldl, trackTs_foldl]
+  induction fs generalizing st with
+  | nil => rfl
+  | cons x xs ih =>
+    simp only [List.foldl_cons]
+    rw [trackStep_setDescs]
+    exact ih _
+
+/-- the skeleton does not look at the description table -/
+theorem decodeRecordF_setDescs (tsKnown : Nat → Bool) (s : DecState) (ds : List Desc) (bs : Bytes) (it : Item) (s' : DecState)
+    (rest : Bytes) (h : decodeRecordF tsKnown s bs = .ok (it, s', rest)) :
+    decodeRecordF tsKnown { s with descs := ds } bs = .ok (it, { s' with descs := ds }, rest) := by
+  rcases wire_record_cases tsKnown s bs it s' rest h with
+    ⟨hd, res, arch, m0, m1, n, bs1, fds, bs2, dds, rfl, hdef, hp, hval, hdv, rfl, rfl⟩ |
+    ⟨hd, bs0, wd, fs, bs1, dvs, rfl, hdef, hl, ht, htd, rfl, rfl⟩
+  · have hany : (fds.any fun f => !validBaseType f.bt) = false := by
+      rw [List.any_eq_false]; intro f hf; simp [hval f hf]
+    simp only [decodeRecordF, hdef, if_true, hp, hany, Bool.false_eq_true, if_false]
+    by_cases h20 : (hd &&& 0x20 == 0x20) = true
+    · simp only [h20, if_true] at hdv ⊢
+      obtain ⟨k, bs3, rfl, hq⟩ := hdv
+      simp only [hq]
+    · have h20' : (hd &&& 0x20 == 0x20) = false := by simpa using h20
+      simp only [h20', Bool.false_eq_true, if_false] at hdv ⊢
+      obtain ⟨rfl, rfl⟩ := hdv
+      rfl
+  · have hl' : ({ s with descs := ds } : DecState).lookup ((if (hd &&& 0x80 == 0x80) = true then (hd &&& 0x60) >>> 5 else hd) &&& 0xF) = some wd := hl
+    simp only [decodeRecordF, hdef, Bool.false_eq_true, if_false, hl']
+    by_cases hc : (hd &&& 0x80 == 0x80) = true
+    · simp only [hc, if_true, ht, htd] at hl ⊢
+      have : (decompressHdr { s with descs := ds } hd).1 = { (decompressHdr s hd).1 with descs := ds } := rfl
+      rw [this, trackTs_setDescs]
+      rfl
+    · have hc' : (hd &&& 0x80 == 0x80) = false := by simpa using hc
+      simp only [hc', Bool.false_eq_true, if_false, ht, htd] at hl ⊢
+      rw [trackTs_setDescs]
+
+theorem decodeRecordsF_setDescs (tsKnown : Nat → Bool) (ds : List Desc) : ∀ (fuel : Nat) (s : DecState) (n : Nat) (bs : Bytes)
+    (items : List Item) (rest : Bytes), decodeRecordsF tsKnown fuel s n bs = (items, .ok rest) →
+    decodeRecordsF tsKnown fuel { s with descs := ds } n bs = (items, .ok rest) := by
+  intro fuel
+  induction fuel with
+  | zero => intro s n bs items rest h; exact h
+  | succ fuel ih =>
+    intro s n bs items rest h
+    simp only [decodeRecordsF] at h ⊢
+    by_cases hn : n = 0
+    · simpa [hn] using h
+    · simp only [hn, if_false] at h ⊢
+      cases hd : decodeRecordF tsKnown s bs with
+      | error e => rw [hd] at h; simp at h
+      | ok p =>
+        obtain ⟨it, s', rest1⟩ := p
+        rw [hd] at h
+        rw [decodeRecordF_setDescs tsKnown s ds bs it s' rest1 hd]
+        simp only at h ⊢
+        rcases hr : decodeRecordsF tsKnown fuel s' (n - (bs.length - rest1.length)) rest1 with ⟨its, r⟩
+        rw [hr] at h
+        simp only [Prod.mk.injEq] at h
+        obtain ⟨rfl, rfl⟩ := h
+        rw [ih s' _ rest1 its rest hr]
+
+def itemsDescOK : List Desc → List Item → Bool
+  | _, [] => true
+  | descs, it :: its => itemDescOK descs it && itemsDescOK (descsAfter descs it) its
+
+/-- THE RECORD LOOP, skeleton ⇒ decoder -/
+theorem decodeRecords_of_F (tsKnown : Nat → Bool) : ∀ (fuel : Nat) (s : DecState) (n : Nat) (bs : Bytes)
+    (items : List Item) (rest : Bytes), decodeRecordsF tsKnown fuel s n bs = (items, .ok rest) →
+    itemsDescOK s.descs items = true → decodeRecords tsKnown fuel s n bs = (items, .ok rest) := by
+  intro fuel
+  induction fuel with
+  | zero => intro s n bs items rest h _; exact h
+  | succ fuel ih =>
+    intro s n bs items rest h hok
+    simp only [decodeRecordsF] at h
+    simp only [decodeRecords]
+    by_cases hn : n = 0
+    · simpa [hn] using h
+    · simp only [hn, if_false] at h ⊢
+      cases hd : decodeRecordF tsKnown s bs with
+      | error e => rw [hd] at h; simp at h
+      | ok p =>
+        obtain ⟨it, s', rest1⟩ := p
+        rw [hd] at h
+        simp only at h
+        rcases hr : decodeRecordsF tsKnown fuel s' (n - (bs.length - rest1.length)) rest1 with ⟨its, r⟩
+        rw [hr] at h
+        simp only [Prod.mk.injEq] at h
+        obtain ⟨rfl, rfl⟩ := h
+        simp only [itemsDescOK, Bool.and_eq_true] at hok
+        rw [decodeRecord_of_F tsKnown s bs it s' rest1 hd hok.1]
+        simp only
+        rw [ih { s' with descs := descsAfter s.descs it } _ rest1 its rest
+          (decodeRecordsF_setDescs tsKnown _ fuel s' _ rest1 its rest hr) hok.2]
+
+/-! #### the written messages decide it -/
+
+theorem wireFields_eq (m : WMsg) : wireFields m = recFieldsOf m := rfl
+
+theorem filter_readFields_removeFirst (k : Nat) (hk : k ≠ tsFieldNum) : ∀ (fs : List WField),
+    (readFields ((removeFirst tsFieldNum fs).map fun f => ((⟨f.num, f.data.length % 256, f.bt⟩ : FieldDef), f.data))).filter (fun p => p.1 = k) =
+    (readFields (fs.map fun f => ((⟨f.num, f.data.length % 256, f.bt⟩ : FieldDef), f.data))).filter (fun p => p.1 = k) := by
+  intro fs
+  induction fs with
+  | nil => rfl
+  | cons f fs ih =>
+    by_cases hf : (f.num == tsFieldNum) = true
+    · have hnum : f.num = tsFieldNum := by simpa using hf
+      simp only [removeFirst, hf, if_true, List.map_cons, readFields, List.filter_cons]
+      split
+      · simp only [List.map_cons, List.filter_cons, hnum]
+        rw [if_neg (by simpa using fun h => hk h.symm)]
+      · rfl
+    · have hf' : (f.num == tsFieldNum) = false := by simpa using hf
+      simp only [removeFirst, hf', Bool.false_eq_true, if_false, List.map_cons, readFields, List.filter_cons]
+      simp only [readFields] at ih
+      split
+      · simp only [List.map_cons, List.filter_cons]
+        split
+        · rw [ih]
+        · exact ih
+      · exact ih
+
+theorem noteDesc_removeTs (descs : List Desc) (m : WMsg) :
+    noteDesc descs m.num (recFieldsOf { m with fields := removeFirst tsFieldNum m.fields }) = noteDesc descs m.num (recFieldsOf m) := by
+  have h := fun k hk => filter_readFields_removeFirst k hk m.fields
+  simp only [noteDesc, lastVal, recFieldsOf]
+  rw [h 0 (by decide), h 1 (by decide), h 2 (by decide)]
+
+theorem itemsDescOK_of_match (arch : Nat) : ∀ (items : List Item) (descs : List Desc) (ms : List WMsg),
+    AllMatch (RecMatches arch) ms (dataOf items) → msgsDescOK descs ms = true → itemsDescOK descs items = true := by
+  intro items
+  induction items with
+  | nil => intro _ _ _ _; rfl
+  | cons it its ih =>
+    intro descs ms hm hok
+    cases it with
+    | def_ i d =>
+      simp only [itemsDescOK, itemDescOK, descsAfter, Bool.true_and]
+      exact ih descs ms (by simpa [dataOf] using hm) hok
+    | data r =>
+      have hd : dataOf (Item.data r :: its) = r :: dataOf its := by simp [dataOf]
+      rw [hd] at hm
+      cases hm with
+      | @cons m _ ms' _ hr hrest =>
+        obtain ⟨hnum, _, hdevs, hfs⟩ := hr
+        simp only [msgsDescOK, Bool.and_eq_true] at hok
+        have hnote : noteDesc descs r.num r.fields = noteDesc descs m.num (wireFields m) := by
+          rw [hnum, wireFields_eq]
+          rcases hfs with ⟨_, hf⟩ | ⟨_, _, hf⟩
+          · rw [hf]
+          · rw [hf]; exact noteDesc_removeTs descs m
+        simp only [itemsDescOK, itemDescOK, descsAfter, Bool.and_eq_true]
+        rw [hnote]
+        refine ⟨?_, ih _ ms' hrest hok.2⟩
+        rw [hdevs]
+        have := hok.1
+        simpa [devsDescOK, recDevsOf, List.all_map, Function.comp_def] using this
+
+/-- every `field_description` message written carries a valid base type (as the decoder reads it) -/
+def allDescsValid (ms : List WMsg) : Bool :=
+  ms.all fun m => m.num != mesgNumFieldDescription || validBaseType (lastVal (readFields (wireFields m)) 2)
+
+/-- "every field description written carries a valid base type" suffices for `msgsDescOK` -/
+theorem msgsDescOK_of_allValid : ∀ (ms : List WMsg) (descs : List Desc), (∀ d ∈ descs, validBaseType d.2.2 = true) →
+    allDescsValid ms = true → msgsDescOK descs ms = true := by
+  intro ms
+  induction ms with
+  | nil => intro _ _ _; rfl
+  | cons m ms ih =>
+    intro descs hd hall
+    simp only [allDescsValid, List.all_cons, Bool.and_eq_true] at hall
+    have hd' : ∀ d ∈ noteDesc descs m.num (wireFields m), validBaseType d.2.2 = true := by
+      intro d hmem
+      unfold noteDesc at hmem
+      split at hmem
+      · rename_i h206
+        rcases List.mem_append.mp hmem with h | h
+        · exact hd d h
+        · simp only [List.mem_singleton] at h
+          subst h
+          have := hall.1
+          simpa [h206] using this
+      · exact hd d hmem
+    simp only [msgsDescOK, Bool.and_eq_true]
+    refine ⟨?_, ih _ hd' (by simpa [allDescsValid] using hall.2)⟩
+    simp only [devsDescOK, List.all_eq_true, Bool.not_eq_true']
+    intro d _
+    unfold descInvalid
+    cases hf : findDesc (noteDesc descs m.num (wireFields m)) ⟨d.num, d.data.length % 256, d.idx⟩ with
+    | none => rfl
+    | some t =>
+      have := hd' t (List.mem_of_find?_eq_some hf)
+      simp [this]
+
+/-- ALL MESSAGES OF A SEQUENCE, on the decoder: the round trip of `encodeMsgs_roundtripF` under the one condition the field
+descriptions add (`msgsDescOK`: no developer field is written under a field description with an invalid base type) -/
+theorem encodeMsgs_roundtrip (tsKnown : Nat → Bool) (o : Opts) (ha : o.arch = 0 ∨ o.arch = 1) (ms : List WMsg)
+    (e : EncState) (d : DecState) (hok : ∀ m ∈ ms, MsgOK m) (inv : DefInv o.arch e.lru d)
+    (hcap : o.compress = true → e.lru.cap ≤ 4) (hts : o.compress = true → LastInv e.tsLast d)
+    (hdesc : msgsDescOK d.descs ms = true)
+    (tail : Bytes) (fuel : Nat) (hfuel : (encodeMsgs o e ms).length ≤ fuel) :
+    ∃ items, decodeRecords tsKnown fuel d (encodeMsgs o e ms).length (encodeMsgs o e ms ++ tail) = (items, .ok tail) ∧
+      AllMatch (RecMatches o.arch) ms (dataOf items) := by
+  obtain ⟨items, h1, h2⟩ := encodeMsgs_roundtripF tsKnown o ha ms e d hok inv hcap hts tail fuel hfuel
+  exact ⟨items, decodeRecords_of_F tsKnown fuel d _ _ items tail h1 (itemsDescOK_of_match o.arch items d.descs ms h2 hdesc), h2⟩
+
 /-! ### file header, file CRC, chained files -/
 open Fit.Crc in
 def b12 (h : Hdr) (ds : Nat) : Bytes := [h.size, h.protoVer] ++ le16 h.profileVer ++ le32 ds ++ [0x2E, 0x46, 0x49, 0x54]
@@ -963,12 +1503,12 @@ open Fit.Crc in
 /-- ONE SEQUENCE: decoding what the encoder wrote for `(h, ms)` succeeds, consumes exactly those bytes,
 and returns matching records, with or without checksum verification. -/
 theorem decodeFit_encodeFit (tsKnown : Nat → Bool) (checksum : Bool) (o : Opts) (ho : OptsOK o) (h : Hdr)
-    (ms : List WMsg) (hf : FitOK o h ms) (tail : Bytes) :
+    (ms : List WMsg) (hf : FitOK o h ms) (hdesc : msgsDescOK [] ms = true) (tail : Bytes) :
     ∃ f, decodeFit tsKnown checksum (encodeFit o h ms ++ tail) = (f.items, .ok (f, tail)) ∧ FitMatches o (h, ms) f := by
   have hpos := encodeMsgs_pos o (freshEnc o) ms hf.nonempty
   obtain ⟨items, hdec, hall⟩ := encodeMsgs_roundtrip tsKnown o ho.arch ms (freshEnc o) DecState.fresh hf.msgs
     (DefInv.fresh o.arch o.lruCap ho.capPos ho.cap16 _) ho.cap4
-    (fun _ => Or.inl rfl)
+    (fun _ => Or.inl rfl) hdesc
     (le16 (write 0 (encodeMsgs o (freshEnc o) ms)) ++ tail)
     (encodeMsgs o (freshEnc o) ms ++ (le16 (write 0 (encodeMsgs o (freshEnc o) ms)) ++ tail)).length
     (by simp [List.length_append])
@@ -997,12 +1537,13 @@ theorem decodeHeader_encodeFit_ok (checksum : Bool) (o : Opts) (h : Hdr) (ms : L
 sequence per encoded sequence and ends without error. -/
 theorem decodeStream_encodeChain (tsKnown : Nat → Bool) (checksum : Bool) (o : Opts) (ho : OptsOK o)
     (fits : List (Hdr × List WMsg)) :
-    (∀ f ∈ fits, FitOK o f.1 f.2) → ∀ (first : Bool), (first = true → fits ≠ []) → ∀ fuel, fits.length < fuel →
+    (∀ f ∈ fits, FitOK o f.1 f.2) → (∀ f ∈ fits, msgsDescOK [] f.2 = true) →
+    ∀ (first : Bool), (first = true → fits ≠ []) → ∀ fuel, fits.length < fuel →
     ∃ evs, decodeStream tsKnown checksum fuel first (encodeChain o fits) = (evs, none) ∧
       AllMatch (FitMatches o) fits (seqsOf evs) := by
   induction fits with
   | nil =>
-    intro _ first hne fuel hfuel
+    intro _ _ first hne fuel hfuel
     have hf : first = false := by
       cases first with
       | false => rfl
@@ -1011,12 +1552,13 @@ theorem decodeStream_encodeChain (tsKnown : Nat → Bool) (checksum : Bool) (o :
     obtain ⟨n, rfl⟩ : ∃ n, fuel = n + 1 := ⟨fuel - 1, by simp at hfuel; omega⟩
     exact ⟨[], by simp [decodeStream, encodeChain, decodeHeader, Except.toOption], AllMatch.nil⟩
   | cons hm fits ih =>
-    intro hall first _ fuel hfuel
+    intro hall hdall first _ fuel hfuel
     obtain ⟨n, rfl⟩ : ∃ n, fuel = n + 1 := ⟨fuel - 1, by simp at hfuel; omega⟩
     obtain ⟨h, ms⟩ := hm
     have hf := hall (h, ms) (by simp)
-    obtain ⟨f, hdec, hmatch⟩ := decodeFit_encodeFit tsKnown checksum o ho h ms hf (encodeChain o fits)
-    obtain ⟨evs, hrest, hrm⟩ := ih (fun x hx => hall x (by simp [hx])) false (by simp) n (by simp at hfuel; omega)
+    obtain ⟨f, hdec, hmatch⟩ := decodeFit_encodeFit tsKnown checksum o ho h ms hf (hdall (h, ms) (by simp)) (encodeChain o fits)
+    obtain ⟨evs, hrest, hrm⟩ := ih (fun x hx => hall x (by simp [hx])) (fun x hx => hdall x (by simp [hx])) false (by simp) n
+      (by simp at hfuel; omega)
     have hhead := decodeHeader_encodeFit_ok checksum o h ms hf (encodeChain o fits)
     refine ⟨f.items.map .item ++ [.seq f] ++ evs, ?_, ?_⟩
     · have e : encodeChain o ((h, ms) :: fits) = encodeFit o h ms ++ encodeChain o fits := by simp [encodeChain]
